@@ -64,6 +64,80 @@ async fn run_one(sc: &Value) -> Value {
             let o = status_exchange(&mut t, Some(sc["sentLen"].as_u64().unwrap_or(10) as usize), Duration::from_millis(1500)).await;
             out["outcome"] = json!(o);
         }
+        "C14lenAt" => {
+            // the configured maximum at OTHER positions of the script than the first frame: the ping of a status exchange, an ignorable
+            // plugin message and the Client Information of a logged-in (encrypted) client. sentLen = value of the frame's length prefix.
+            let mut t = Tcp::connect(addr, None).await.unwrap();
+            let want = sc["sentLen"].as_u64().unwrap_or(9) as usize;
+            let wait = Duration::from_millis(1500);
+            let outcome = match sc["at"].as_str().unwrap_or("ping") {
+                "ping" => {
+                    let _ = t.send_frame(0, &body_handshake(770, "h", 25565, 1)).await;
+                    let _ = t.send_frame(0, &[]).await;
+                    match t.recv(wait).await {
+                        Recv::Frame(0, _) => {
+                            let mut body = 7u64.to_be_bytes().to_vec();
+                            body.resize(want.saturating_sub(1).max(8), 0);
+                            let _ = t.send_frame(1, &body).await;
+                            match t.recv(wait).await {
+                                Recv::Frame(1, _) => "served".to_string(),
+                                Recv::Eof => "closed".to_string(),
+                                _ => "timeout".to_string(),
+                            }
+                        }
+                        _ => "nostatus".to_string(),
+                    }
+                }
+                at => {
+                    let o = login(&mut t, 2, "X", 1, None, "success", wait).await;
+                    if o.login_success.is_none() {
+                        "nologin".to_string()
+                    } else {
+                        let _ = t.send_frame(3, &[]).await;
+                        if at == "plugin" {
+                            let mut body = Vec::new();
+                            hx_core::refcodec::put_string(&mut body, "minecraft:brand");
+                            body.resize(want.saturating_sub(1).max(body.len()), b'v');
+                            let _ = t.send_frame(2, &body).await;
+                            let _ = t.send_frame(0, &body_client_info("en_US")).await;
+                        } else {
+                            // Client Information with a locale that makes the frame `want` bytes long (2-byte string prefix from 128 bytes on)
+                            let fixed = body_client_info("").len() + 1;
+                            let mut n = want.saturating_sub(fixed);
+                            if n >= 128 {
+                                n = n.saturating_sub(1);
+                            }
+                            let _ = t.send_frame(0, &body_client_info(&"a".repeat(n))).await;
+                        }
+                        // (no acknowledgement frame: configuration() would send a second Login Acknowledged)
+                        let mut end = "timeout".to_string();
+                        loop {
+                            match t.recv(wait).await {
+                                Recv::Frame(0x0B, _) => {
+                                    end = "served".into();
+                                    break;
+                                }
+                                Recv::Frame(2, _) => {
+                                    end = "disconnect".into();
+                                    break;
+                                }
+                                Recv::Frame(4, body) => {
+                                    let _ = t.send_frame(4, &body).await;
+                                }
+                                Recv::Frame(_, _) => {}
+                                Recv::Eof => {
+                                    end = "closed".into();
+                                    break;
+                                }
+                                Recv::Timeout => break,
+                            }
+                        }
+                        end
+                    }
+                }
+            };
+            out["outcome"] = json!(outcome);
+        }
         "C14cookie" => {
             let mut t = Tcp::connect(addr, None).await.unwrap();
             let age = sc["age"].as_u64().unwrap_or(0);
